@@ -103,6 +103,16 @@ CHECKS = {
         note="In-place targets keeping their flag is checked under C04/C05. Known findings: constant copy keeps grad (pinned by a test), clip without bounds ignores constant=. Trusted: Coq kernel, harness. No axioms.",
         technique="Coq proofs (finite case analysis + invariant over histories) + exhaustive lattice correspondence by vm_compute + differential oracle",
     ),
+    "C12": dict(
+        text="Machine-checked (Coq) on the history model: no statement (operation, backward, clear_graph, null_grad) rewrites the value of an existing tensor; backward -- successful or aborted -- leaves every value untouched. "
+             "Implementation oracle on /repo: every caller-owned array (raw array operands, integer/boolean index arrays, seed gradients incl. the arrays they are views of) is bit-identical after every statement; backward changes "
+             "no tensor's data; after backward two gradients share memory only if their tensors do and no gradient shares memory with any data; over family histories with in-place updates, DAG programs, explicit owning / non-owning "
+             "seeds, and the nnet layers/losses (seed and inputs untouched).",
+        design_ref="DESIGN.md 5 (C12)",
+        note="Partial by nature: aliasing and mutation of caller memory are memory-level facts, decided by checksums and np.shares_memory on the implementation; the Coq model is value-level. One defect found and repaired (GRU backward "
+             "mutated the seed). No axioms.",
+        technique="Coq proofs (value immutability on the history model) + checksum / shares_memory oracle on the implementation",
+    ),
     "C13": dict(
         text="Machine-checked (Coq): in the history model a statement that raises returns the state unchanged, hence a history reaches exactly the state of the same history without its failing statements "
              "(C13_same_final_state_without_failing_statements, by induction over histories); the lock automaton restores every flag once the failed operation's locks are released. Fault enumeration on /repo: "
@@ -154,6 +164,14 @@ CHECKS = {
         design_ref="DESIGN.md 5 (C17)",
         note="The creation routines and asarray are covered by differential testing against NumPy (a test), the construction lattice by the theorems + exhaustive correspondence. No axioms.",
         technique="Coq proofs by case analysis on the decision model + exhaustive lattice correspondence by vm_compute + differential testing",
+    ),
+    "C18": dict(
+        text="Machine-checked (Coq) over Model/IO.v (load = tensor(data) followed by backward(grad) on the fresh leaf, on the history model): data always round-trips; a float tensor's gradient round-trips; no gradient in, none out; "
+             "integer/boolean tensors (constants) never get one. Tie: the complete product 7 dtypes x {0-d, empty, 1-d, 3-d} x {leaf, view with a view-gradient, intermediate with a live graph, constant copy carrying a gradient} x "
+             "gradient presence x constant flag x {str path, Path, BytesIO, file handle} is run on /repo: loaded data/dtype/shape/gradient equal the saved ones and saving alters nothing (data, gradient, creator, consumers, flags).",
+        design_ref="DESIGN.md 5 (C18)",
+        note="numpy.savez/numpy.load are an oracle (assumed to round-trip real arrays; exercised by the check). dtype is checked on the implementation only. Graph tracking is assumed on at load time. No axioms.",
+        technique="Coq proofs on the IO model + exhaustive configuration testing on the implementation",
     ),
 }
 
